@@ -12,7 +12,7 @@ import (
 // knownScanKinds lists the scan kinds runScan implements; the contract parser rejects every other word (an unknown
 // kind used to fall through to the writer scan, which found no writer and reported the obligation as discharged).
 var knownScanKinds = map[string]bool{"maprange": true, "gostmts": true, "recoverguard": true, "typekeys": true, "defercalls": true,
-	"assertorder": true, "extcalls": true, "pkgglobals": true, "fieldwriters": true, "globalwriters": true, "structfields": true}
+	"assertorder": true, "extcalls": true, "pkgglobals": true, "fieldwriters": true, "globalwriters": true, "structfields": true, "recursive": true}
 
 // runScan evaluates one syntactic obligation over the SSA of its package.
 func (p *Program) runScan(sc *Scan) *UnitResult {
@@ -171,6 +171,145 @@ func (p *Program) runScan(sc *Scan) *UnitResult {
 		} else {
 			o.Status = "sat"
 			o.Output = strings.Join(offenders, "; ")
+		}
+		return res
+	}
+	if sc.Kind == "recursive" {
+		// recursive <pkg>: f1 f2 ... - every function of the package that lies on a cycle of the package's call graph
+		// must be listed (with the reason it terminates in the contract file). Edges: static calls (also go / defer),
+		// the creation of a closure (it may be called), and interface method calls, resolved to every method of the
+		// package with that name (class-hierarchy approximation inside the package). Calls that leave the package
+		// and come back through a function value are not seen.
+		type node = *ssa.Function
+		var nodes []node
+		name := map[node]string{}
+		byMethod := map[string][]node{}
+		for key, fn := range p.fnByKey {
+			if fn.Pkg == nil || fn.Pkg.Pkg.Path() != sc.Pkg || fn.Blocks == nil {
+				continue
+			}
+			base := strings.TrimPrefix(shortKey(key), fn.Pkg.Pkg.Name()+".")
+			var add func(f *ssa.Function, nm string)
+			add = func(f *ssa.Function, nm string) {
+				if _, ok := name[f]; ok {
+					return
+				}
+				nodes = append(nodes, f)
+				name[f] = nm
+				for _, a := range f.AnonFuncs {
+					add(a, nm+"$"+a.Name())
+				}
+			}
+			add(fn, base)
+			if fn.Signature.Recv() != nil {
+				byMethod[fn.Name()] = append(byMethod[fn.Name()], fn)
+			}
+		}
+		succ := map[node][]node{}
+		for _, f := range nodes {
+			for _, b := range f.Blocks {
+				for _, in := range b.Instrs {
+					if mc, ok := in.(*ssa.MakeClosure); ok {
+						if t, ok := mc.Fn.(*ssa.Function); ok {
+							if _, in := name[t]; in {
+								succ[f] = append(succ[f], t)
+							}
+						}
+					}
+					ci, ok := in.(ssa.CallInstruction)
+					if !ok {
+						continue
+					}
+					cc := ci.Common()
+					if cc.IsInvoke() {
+						for _, t := range byMethod[cc.Method.Name()] {
+							succ[f] = append(succ[f], t)
+						}
+						continue
+					}
+					if t := cc.StaticCallee(); t != nil {
+						if _, in := name[t]; in {
+							succ[f] = append(succ[f], t)
+						}
+					}
+				}
+			}
+		}
+		// Tarjan
+		index, low := map[node]int{}, map[node]int{}
+		on := map[node]bool{}
+		var stack []node
+		next := 0
+		cyc := map[node]bool{}
+		var strong func(v node)
+		strong = func(v node) {
+			index[v], low[v] = next, next
+			next++
+			stack = append(stack, v)
+			on[v] = true
+			for _, w := range succ[v] {
+				if _, seen := index[w]; !seen {
+					strong(w)
+					if low[w] < low[v] {
+						low[v] = low[w]
+					}
+				} else if on[w] && index[w] < low[v] {
+					low[v] = index[w]
+				}
+			}
+			if low[v] == index[v] {
+				var comp []node
+				for {
+					w := stack[len(stack)-1]
+					stack = stack[:len(stack)-1]
+					on[w] = false
+					comp = append(comp, w)
+					if w == v {
+						break
+					}
+				}
+				self := false
+				for _, w := range succ[v] {
+					if w == v {
+						self = true
+					}
+				}
+				if len(comp) > 1 || self {
+					for _, w := range comp {
+						cyc[w] = true
+					}
+				}
+			}
+		}
+		sort.Slice(nodes, func(i, j int) bool { return name[nodes[i]] < name[nodes[j]] })
+		for _, v := range nodes {
+			if _, seen := index[v]; !seen {
+				strong(v)
+			}
+		}
+		have := map[string]bool{}
+		for v := range cyc {
+			have[name[v]] = true
+			if !allowed[name[v]] {
+				offenders = append(offenders, name[v])
+			}
+		}
+		sort.Strings(offenders)
+		var stale []string
+		for _, a := range sc.Allowed {
+			if !have[a] {
+				stale = append(stale, a)
+			}
+		}
+		if len(offenders) == 0 {
+			o.Status = "unsat"
+			o.Output = fmt.Sprintf("the %d functions of %s on a call cycle are the listed ones", len(have), sc.Pkg)
+			if len(stale) > 0 {
+				o.Output += " (listed but no longer on a cycle: " + strings.Join(stale, ", ") + ")"
+			}
+		} else {
+			o.Status = "sat"
+			o.Output = "functions on a call cycle without a recorded termination argument: " + strings.Join(offenders, ", ")
 		}
 		return res
 	}
